@@ -1,0 +1,21 @@
+//go:build verif
+
+package verifspec
+
+// Contracts of the lemma functions (proved by govc; used through `hint` clauses).
+
+//@ func LemmaFixedElems
+//@   arith int
+//@   props C02, C03, C08
+//@   requires Fixed(t) > 0 && 0 <= n && n <= 0x7fffffff && 0 <= d && d <= 64
+//@   ensures n * Fixed(t) <= len(b) ==> ElemsLenD(b, t, n, d) == n * Fixed(t)
+//@   ensures n * Fixed(t) > len(b) ==> ElemsLenD(b, t, n, d) == -1
+//@   decreases n
+
+//@ func LemmaFixedPairs
+//@   arith int
+//@   props C02, C03, C08
+//@   requires Fixed(kt) > 0 && Fixed(vt) > 0 && 0 <= n && n <= 0x7fffffff && 0 <= d && d <= 64
+//@   ensures n * (Fixed(kt) + Fixed(vt)) <= len(b) ==> PairsLenD(b, kt, vt, n, d) == n * (Fixed(kt) + Fixed(vt))
+//@   ensures n * (Fixed(kt) + Fixed(vt)) > len(b) ==> PairsLenD(b, kt, vt, n, d) == -1
+//@   decreases n
